@@ -86,6 +86,7 @@ pub fn single_file_layout(n: usize) -> Layout {
             number: 0,
             width: 5,
             segs: (0..n).map(|i| Seg::Active { i }).collect(),
+            symlink: false,
         }],
         xor_key: None,
         extra_files: vec![],
@@ -104,6 +105,7 @@ pub fn random_layout(n: usize, max_files: usize, junk: bool, rng: &mut Rng) -> L
             number: k as u64,
             width: 5,
             segs: vec![],
+            symlink: false,
         })
         .collect();
     for (pos, i) in order.iter().enumerate() {
@@ -178,6 +180,7 @@ pub fn index_opts(rng: &mut Rng) -> IndexOpts {
         extra_keys: vec![],
         order_seed: rng.next() | 1,
         undo_pos_base: rng.below(100000),
+        active_extra_status: *rng.pick(&[0u64, 0, 128, 128, 256, 384]),
     }
 }
 
@@ -326,6 +329,14 @@ pub fn random_auxpow(coin: &str, rng: &mut Rng, sh: &TxShape) -> AuxPowDesc {
     let mut cb = rich_tx(coin, rng, sh);
     cb.inputs.truncate(3);
     cb.outputs.truncate(4);
+    // the merged-mining commitment marker followed by a complete (40+ bytes) or an incomplete tail
+    if rng.chance(1, 3) {
+        let mut s = rng.bytes_range(0, 20);
+        s.extend_from_slice(&[0xfa, 0xbe, 0x6d, 0x6d]);
+        let tail = *rng.pick(&[0usize, 1, 8, 31, 32, 39, 40, 44, 60]);
+        s.extend(rng.bytes(tail));
+        cb.inputs[0].script_sig = Bytes(s);
+    }
     AuxPowDesc {
         coinbase_tx: cb,
         parent_hash: Bytes(rng.bytes(32)),
